@@ -30,10 +30,55 @@ pub struct PublicKey(Vec<u8>);
 
 impl PublicKey {
     /// Decode an RSA public key from a DER-encoded X.509 SubjectPublicKeyInfo structure.
+    ///
+    /// Only the canonical encoding of the key is accepted, i.e. the one produced by
+    /// [`PublicKey::encode_x509`]. The peer ID of an RSA key is the hash of the key protobuf which
+    /// embeds this structure verbatim, so accepting any other serialisation of the same key
+    /// (trailing bytes, a different `AlgorithmIdentifier`, ...) would give one key many peer IDs.
     pub fn try_decode_x509(spki: &[u8]) -> Result<Self, ParseError> {
-        SubjectPublicKeyInfo::from_der(spki)
-            .map(|(_, spki)| Self(spki.subject_public_key.as_ref().to_vec()))
-            .map_err(|_| ParseError::InvalidPublicKey)
+        let (rest, parsed) =
+            SubjectPublicKeyInfo::from_der(spki).map_err(|_| ParseError::InvalidPublicKey)?;
+        let key = Self(parsed.subject_public_key.as_ref().to_vec());
+
+        if !rest.is_empty() || key.encode_x509() != spki {
+            return Err(ParseError::InvalidPublicKey);
+        }
+
+        Ok(key)
+    }
+
+    /// Encode the RSA public key (DER `RSAPublicKey`) into a canonical DER-encoded X.509
+    /// SubjectPublicKeyInfo structure.
+    pub fn encode_x509(&self) -> Vec<u8> {
+        // AlgorithmIdentifier ::= SEQUENCE { OID rsaEncryption (1.2.840.113549.1.1.1), NULL }
+        const ALGORITHM: [u8; 15] = [
+            0x30, 0x0d, 0x06, 0x09, 0x2a, 0x86, 0x48, 0x86, 0xf7, 0x0d, 0x01, 0x01, 0x01, 0x05,
+            0x00,
+        ];
+
+        fn write_header(tag: u8, len: usize, out: &mut Vec<u8>) {
+            out.push(tag);
+            if len < 0x80 {
+                out.push(len as u8);
+            } else {
+                let bytes = len.to_be_bytes();
+                let skip = bytes.iter().take_while(|b| **b == 0).count();
+                out.push(0x80 | (bytes.len() - skip) as u8);
+                out.extend_from_slice(&bytes[skip..]);
+            }
+        }
+
+        // BIT STRING with zero unused bits.
+        let mut bit_string = Vec::with_capacity(self.0.len() + 8);
+        write_header(0x03, self.0.len() + 1, &mut bit_string);
+        bit_string.push(0x00);
+        bit_string.extend_from_slice(&self.0);
+
+        let mut out = Vec::with_capacity(ALGORITHM.len() + bit_string.len() + 8);
+        write_header(0x30, ALGORITHM.len() + bit_string.len(), &mut out);
+        out.extend_from_slice(&ALGORITHM);
+        out.extend_from_slice(&bit_string);
+        out
     }
 
     /// Verify the RSA signature on a message using the public key.
